@@ -128,6 +128,11 @@ where
                                         panic!("sink must not send data");
                                     },
                                     Message::Pull => {
+                                        // the output may have ended (the sink disposed, or a member
+                                        // failed) from inside a handler run by this very broadcast
+                                        if ended.load(AtomicOrdering::Acquire) {
+                                            return;
+                                        }
                                         call!(
                                             source_talkback,
                                             Message::Pull,
